@@ -351,6 +351,21 @@ def update (fr : Frames) (o : Ops) : Frames :=
     | none => if o.disp = .listItem then [("list-item", 1)] else []
   foldPairs (fun s n v => touch (fun t => t + v) s n) incr fr
 
+/-- The effective `counter-increment` of an element (`auto` = the implicit list-item increment). -/
+def effIncr (o : Ops) : List (String × Int) :=
+  match o.incr with
+  | some l => l
+  | none => if o.disp = .listItem then [("list-item", 1)] else []
+
+/-- css-lists-3 §4.5 order: counters are reset, then **incremented, then set**.  `update` above (and
+`update_counters` in build.py) set first and increment afterwards: finding `counter-set-before-increment`;
+`C15.update_order_partial` shows the two agree on every counter that the element does not both set and
+increment. -/
+def updateCss (fr : Frames) (o : Ops) : Frames :=
+  let fr := foldPairs reset o.reset fr
+  let fr := foldPairs (fun s n v => touch (fun t => t + v) s n) (effIncr o) fr
+  foldPairs (fun s n v => touch (fun _ => v) s n) o.set fr
+
 def optStack (l : List Int) : Option (List Int) := if l.isEmpty then none else some l
 
 def machine : Machine Frames :=
